@@ -117,10 +117,23 @@ var (
 var Hook func(s Step)
 
 // Reset puts the seam into the given mode and clears the log.
-func Reset(m int) { mode, log, frozen = m, nil, false }
+func Reset(m int) { mode, log, frozen, alsoFaultAt = m, nil, false, -1 }
 
 // SetCrash arms a crash at step k; if that step is a write, its first p bytes are performed.
 func SetCrash(k, p int) { Reset(Crash); crashAt, crashBytes = k, p }
+
+// SetFaultCrash arms a fault at step fk AND a crash at the later step ck (after p bytes if it is a write): the store
+// meets an error, takes whatever path it takes then, and the process dies somewhere on that path. ck < 0: no crash.
+func SetFaultCrash(fk int, err error, ck, p int) {
+	Reset(Crash)
+	crashAt, crashBytes = ck, p
+	alsoFaultAt, alsoFaultErr = fk, err
+}
+
+var (
+	alsoFaultAt  = -1
+	alsoFaultErr error
+)
 
 // SetFault makes step k fail with err without executing it.
 func SetFault(k int, err error) { Reset(Fault); faultAt, faultErr = k, err }
@@ -145,6 +158,9 @@ func gate(s Step) (n int, err error) {
 	}
 	switch mode {
 	case Crash:
+		if i == alsoFaultAt {
+			return 0, &fs.PathError{Op: s.Kind, Path: s.Path, Err: alsoFaultErr}
+		}
 		if i == crashAt {
 			frozen = true
 			if s.Kind == "write" {
@@ -508,4 +524,7 @@ var (
 	EIO    error = syscall.EIO
 	EACCES error = syscall.EACCES
 	ENOSPC error = syscall.ENOSPC
+	EROFS  error = syscall.EROFS
+	EEXIST error = syscall.EEXIST
+	EMFILE error = syscall.EMFILE
 )
